@@ -11,6 +11,9 @@ use std::cmp::min;
 use std::collections::{HashMap, VecDeque};
 use std::fmt::Debug;
 use std::net::SocketAddr;
+#[cfg(hotstuff_verif)]
+use crate::simnet::TcpStream;
+#[cfg(not(hotstuff_verif))]
 use tokio::net::TcpStream;
 use tokio::sync::mpsc::{channel, Receiver, Sender};
 use tokio::sync::oneshot;
